@@ -109,20 +109,28 @@ namespace {
     void run_mpi(RunCtx& ctx)
     {
         Rng r(mix_seed(ctx.seed, 2000));
+        ctx.params.set("rt.min_thread_count", 64 * 3 + 16);
         pk::draw_runtime(ctx, 4);
         // completion mode: method (0,8,16,24) + inline request + inline completion + high priority
         int64_t mode = ctx.params.set("c20.completion_mode", (int64_t) r.below(32));
         int64_t pool = ctx.params.set("c20.mpi_pool", r.chance(1, 3) ? 1 : 0);
         int nbatches = (int) ctx.params.set("c20.batches", r.range(1, 3));
+        // one run in three keeps many requests outstanding at once (completions are held back until a
+        // whole batch is posted): pika tests its request vector in chunks of 32
+        bool const many = ctx.params.set("c20.hold", r.chance(1, 3) ? 1 : 0) != 0;
+        // (not with the yield_while handler: its waiting tasks poll MPI_Test themselves - the request vector
+        // is not used - and while nothing may complete they starve the tasks that still have to post,
+        // see C01's known finding)
+        bool const hold = many && mode >= 8;
         if (!ctx.program_from_replay)
         {
             Program p;
-            int n = (int) r.range(1, ctx.thorough ? 24 : 12);
+            int n = many ? (int) r.range(12, ctx.thorough ? 64 : 40) : (int) r.range(1, ctx.thorough ? 24 : 12);
             for (int i = 0; i < n; i++)
             {
                 Op op;
                 op.v[0] = r.chance(1, 6) ? 1 : 0;
-                op.v[1] = (int64_t) r.logu(1, 4096);
+                op.v[1] = (int64_t) r.logu(1, many ? 256 : 4096);
                 op.v[2] = (int64_t) r.below(4);
                 op.v[3] = r.range(0, 3);
                 op.v[4] = (int64_t) r.below((uint64_t) nbatches);
@@ -151,6 +159,9 @@ namespace {
         ctx.params.set("rt.mpi_enable_pool", pool);
         if (pool && ctx.params.get("rt.workers") < 2) ctx.params.set("rt.workers", 2);
         pk::start(ctx);
+        // requests tested per MPI call: 1 = MPI_Testany, > 1 = MPI_Testsome in chunks
+        int64_t polling_size = ctx.params.set("c20.polling_size", r.chance(1, 4) ? 1 : r.chance(1, 2) ? 8 : r.range(2, 64));
+        mpi::detail::set_max_polling_size((std::size_t) polling_size);
         int n = (int) ctx.program.size();
         for (int i = 0; i < n; i++)
         {
@@ -170,10 +181,33 @@ namespace {
             // polling is enabled and disabled in a balanced way around every batch
             mpi::enable_polling polling_scope;
             int posted_before = g_expected_signals;
+            uint64_t to_post = 0;
+            {
+                sim_mpi_stats s0;
+                sim_mpi_get_stats(&s0);
+                to_post = s0.posted;
+            }
+            if (hold) sim_mpi_hold(1);
             for (int i = 0; i < n; i++)
             {
                 if (((ctx.program[(size_t) i].v[4] % nbatches) + nbatches) % nbatches != b) continue;
+                // in the blocking completion modes (yield_while 0-7, suspend_resume 8-15) starting an operation
+                // waits for its request: the posting task does not get to the second request of its pair
+                to_post += (M[(size_t) i]->kind == 1 || mode < 16) ? 1 : 2;
                 ex::execute(ex::thread_pool_scheduler{}, [i] { post(i); });
+            }
+            if (hold)
+            {
+                // every request of the batch is outstanding at once before the first one completes
+                for (;;)
+                {
+                    sim_mpi_stats s1;
+                    sim_mpi_get_stats(&s1);
+                    if (s1.posted >= to_post) break;
+                    main_pause(3000000);
+                }
+                probe("all_requests_outstanding_at_once", to_post);
+                sim_mpi_hold(0);
             }
             // pika::wait() must not return while requests are in flight; it is called while the
             // batch is still being posted and completed (fault phase)
